@@ -9,6 +9,7 @@
    Platform facts used: unsigned long and size_t are 64 bit, the byte order is little endian (x86-64).
    Definitions only -- proofs live in SamplerLemmas.v. *)
 From Coq Require Import ZArith NArith List Bool.
+From LT Require Import gen_Consts.
 Import ListNotations.
 Local Open Scope N_scope.
 
@@ -88,3 +89,39 @@ Definition grandomm (m : Z) (s : list N) : res (Z * list N) :=
 
 (* number of values v < n with v mod m = t  (the counting statement of the uniformity theorems) *)
 Definition fibre_count (n m t : N) : N := n / m + (if t <? n mod m then 1 else 0).
+
+(* ---- the residue cache: tmcg_mpz_ssrandomm_cache_init / _cache / _cache_done, mpz_srandom.cc:222-276 ------------- *)
+(* k successive tmcg_mpz_ssrandomm(., m) draws (cache[0] first) *)
+Fixpoint draw_many (k : nat) (m : Z) (s : list N) : res (list Z * list N) :=
+  match k with
+  | O => Ret ([], s)
+  | S k' => bind (grandomm m s) (fun vr => bind (draw_many k' m (snd vr)) (fun vs => Ret (fst vr :: fst vs, snd vs)))
+  end.
+
+Record cache : Type := { c_vals : list Z; c_mod : Z; c_avail : nat }.
+
+(* n = 0 or n > TMCG_MAX_SSRANDOMM_CACHE throws *)
+Definition cache_init (n : nat) (m : Z) (s : list N) : res (cache * list N) :=
+  if (n =? 0)%nat || (Z.to_nat TMCG_MAX_SSRANDOMM_CACHE <? n)%nat then Throw
+  else bind (draw_many n m s) (fun vs => Ret ({| c_vals := fst vs; c_mod := m; c_avail := n |}, snd vs)).
+
+(* cache hit iff the moduli are equal and an entry is left (taken from the top); otherwise a fresh draw modulo m *)
+Definition cache_get (c : cache) (m : Z) (s : list N) : res ((Z * cache) * list N) :=
+  if (m =? c_mod c)%Z && (0 <? c_avail c)%nat then
+    match nth_error (c_vals c) (c_avail c - 1) with
+    | Some v => Ret ((v, {| c_vals := c_vals c; c_mod := c_mod c; c_avail := c_avail c - 1 |}), s)
+    | None => Oob
+    end
+  else bind (grandomm m s) (fun vr => Ret ((fst vr, c), snd vr)).
+
+Definition cache_done (c : cache) : cache := {| c_vals := []; c_mod := 0%Z; c_avail := 0 |}.
+
+(* a whole life cycle: init for modulus q with n entries, then one query per modulus in ms *)
+Fixpoint cache_queries (c : cache) (ms : list Z) (s : list N) : res (list Z * list N) :=
+  match ms with
+  | [] => Ret ([], s)
+  | m :: ms' => bind (cache_get c m s) (fun x =>
+                bind (cache_queries (snd (fst x)) ms' (snd x)) (fun vs => Ret (fst (fst x) :: fst vs, snd vs)))
+  end.
+Definition cache_run (n : nat) (q : Z) (ms : list Z) (s : list N) : res (list Z * list N) :=
+  bind (cache_init n q s) (fun cs => cache_queries (fst cs) ms (snd cs)).
